@@ -73,7 +73,10 @@ let dump (c : cfg) (p : pool) : string =
       si k ^ ":" ^ String.concat "," (List.map (fun b -> Printf.sprintf "%s/%s-%s" (si b.b_ip) (si b.b_start) (si b.b_end)) bl)) subs in
   let subs = if subs = [] then ["-"] else subs in
   let bits = List.map (fun a ->
-      si a.a_ip ^ (if a.a_excl then "x" else "") ^ ":" ^ String.concat "." (List.map hex_of_n a.a_bits)) p.p_addrs in
+      (* trailing zero words dropped (the harness does the same): only the set of taken indices is compared *)
+      let rec trim = function [] -> [] | w :: r -> (match trim r with [] -> if w = N0 then [] else [w] | t -> w :: t) in
+      let ws = (match trim a.a_bits with [] -> ["0"] | l -> List.map hex_of_n l) in
+      si a.a_ip ^ (if a.a_excl then "x" else "") ^ ":" ^ String.concat "." ws) p.p_addrs in
   let bits = if bits = [] then ["-"] else bits in
   let (((((ta, al), fr), tb), ex), sc) = stats p in
   let flags = (if mon_disjoint p then [] else ["OVERLAP"]) @ (if mon_range c p then [] else ["RANGE"])
